@@ -1855,8 +1855,9 @@ class Wallet(object):
         own_key = [pubk for pubk in public_keys if pubk.wallet.cosigner_id == self.cosigner_id][0]
         path = own_key.path
         if own_key.depth and own_key.address_index is not None:
-            # Use index of the derived cosigner key, the address_index argument is the first index of a range of keys
+            # Use index and change of the derived cosigner key, the arguments are defaults or the first index of a range
             address_index = own_key.address_index
+            change = own_key.change if own_key.change is not None else change
         depth = self.cosigner[self.cosigner_id].main_key.depth + len(path.split("/")) - 1
         if not name:
             name = "Multisig Key " + '/'.join(public_key_ids)
